@@ -107,71 +107,92 @@ PrunedPaths(P, i, T, j, path) ==
 RECURSIVE LookupEdge(_, _, _, _, _)
 LookupEdge(T, i, n, key, forks) ==
   LET c == T[i] IN
-  IF c.x # Ordinary THEN [ok |-> FALSE, why |-> IF c.x = Pruned THEN "pruned" ELSE "exotic"]
+  IF c.x # Ordinary THEN [ok |-> FALSE, why |-> IF c.x = Pruned THEN "pruned" ELSE "exotic", forks |-> forks]
   ELSE LET lb == Label(c.b, n) IN
-       IF ~lb.ok THEN [ok |-> FALSE, why |-> "label"]
+       IF ~lb.ok THEN [ok |-> FALSE, why |-> "label", forks |-> forks]
        ELSE LET ls == Len(lb.s) IN
             IF SubSeq(key, 1, ls) # lb.s THEN [ok |-> TRUE, found |-> FALSE, forks |-> forks]
             ELSE IF ls = n THEN [ok |-> TRUE, found |-> TRUE, v |-> [b |-> SubSeq(c.b, lb.used + 1, Len(c.b)), r |-> c.r], forks |-> forks, leaf |-> i]
-            ELSE IF Len(c.r) # 2 \/ lb.used # Len(c.b) THEN [ok |-> FALSE, why |-> "fork"]
+            ELSE IF Len(c.r) # 2 \/ lb.used # Len(c.b) THEN [ok |-> FALSE, why |-> "fork", forks |-> forks]
             ELSE LookupEdge(T, c.r[key[ls + 1] + 1], n - ls - 1, SubSeq(key, ls + 2, n), Append(forks, <<i, key[ls + 1] + 1>>))
 Lookup(T, R, n, key) == LookupEdge(T, R, n, key, <<>>)
+\* the path (reference positions) a lookup result followed
+PathOf(lk) == [f \in 1..Len(lk.forks) |-> lk.forks[f][2]]
 
 \* ----------------------------------------------------------- (c) judgements
-\* "" when the bag B is a Merkle proof that commits to (T, R) with right pruned cells; else the first failing clause.
+\* [reason |-> "" when the bag B is a Merkle proof that commits to (T, R) with right pruned cells, else the first failing clause,
+\*  psp |-> the occurrences at which the bag has pruned-branch cells ({} if it cannot be read),
+\*  bad |-> for "value:pruned": the path of the pruned branch met on the way to the key]
 \* k = <<>> : no dictionary clause (cursor walks).  Otherwise (n, k): the value of key k must be readable from the proof
 \* and be the value the original holds.
-ProofReason(B, T, IT, R, n, k) ==
+PV(r, psp, bad) == [reason |-> r, psp |-> psp, bad |-> bad]
+ProofVerdict(B, T, IT, R, n, k) ==
   LET pr == Parse(B) IN
-  IF ~pr.ok THEN "parse"
-  ELSE IF Len(pr.roots) # 1 THEN "roots"
+  IF ~pr.ok THEN PV("parse", {}, <<>>)
+  ELSE IF Len(pr.roots) # 1 THEN PV("roots", {}, <<>>)
   ELSE
   LET P == pr.T  rt == pr.roots[1] IN
-  IF ~WellFormed(P) THEN "well-formed"                      \* incl.: Merkle-proof cell stores its child's level-0 hash / depth, masks
-  ELSE IF P[rt].x # MerkleProof THEN "root-type"
+  IF ~WellFormed(P) THEN PV("well-formed", {}, <<>>)        \* incl.: Merkle-proof cell stores its child's level-0 hash / depth, masks
+  ELSE IF P[rt].x # MerkleProof THEN PV("root-type", {}, <<>>)
   ELSE
   LET IP   == InfoTable(P)
       ch   == P[rt].r[1]
       data == DataBytes(P[rt].b)
       prs  == Pairs(P, ch, T, R)
       reach == Reach(pr)
-  IN IF SubSeq(data, 2, 33) # IT[R].h[1] THEN "stored-hash"
-     ELSE IF <<data[34], data[35]>> # U16(IT[R].d[1]) THEN "stored-depth"
-     ELSE IF IP[ch].h[1] # IT[R].h[1] THEN "level0-hash"
-     ELSE IF IP[ch].d[1] # IT[R].d[1] THEN "level0-depth"
-     ELSE IF \E q \in prs : ~PairOK(P, IT, T, q[1], q[2]) THEN "pruned-cell"
-     ELSE IF \E i \in reach : P[i].x = Pruned /\ ~\E q \in prs : q[1] = i THEN "pruned-cell"
+      psp  == PrunedPaths(P, ch, T, R, <<>>)
+  IN IF SubSeq(data, 2, 33) # IT[R].h[1] THEN PV("stored-hash", {}, <<>>)
+     ELSE IF <<data[34], data[35]>> # U16(IT[R].d[1]) THEN PV("stored-depth", {}, <<>>)
+     ELSE IF IP[ch].h[1] # IT[R].h[1] THEN PV("level0-hash", {}, <<>>)
+     ELSE IF IP[ch].d[1] # IT[R].d[1] THEN PV("level0-depth", {}, <<>>)
+     ELSE IF \E q \in prs : ~PairOK(P, IT, T, q[1], q[2]) THEN PV("pruned-cell", {}, <<>>)
+     ELSE IF \E i \in reach : P[i].x = Pruned /\ ~\E q \in prs : q[1] = i THEN PV("pruned-cell", {}, <<>>)
      \* cross-check with (b): the bag is exactly the proof of the prune set it exhibits
-     ELSE IF ReprHash(IP[rt]) # ReprHash(InfoTable(ProofI(T, IT, R, PrunedPaths(P, ch, T, R, <<>>)))[1]) THEN "not-the-proof-of-its-prune-set"
-     ELSE IF Len(k) = 0 THEN ""
+     ELSE IF ReprHash(IP[rt]) # ReprHash(InfoTable(ProofI(T, IT, R, psp))[1]) THEN PV("not-the-proof-of-its-prune-set", psp, <<>>)
+     ELSE IF Len(k) = 0 THEN PV("", psp, <<>>)
      ELSE
      LET a == Lookup(P, ch, n, k)
          o == Lookup(T, R, n, k)
-     IN IF ~a.ok THEN StrCat("value:", a.why)
-        ELSE IF ~a.found THEN "value:not-found"
-        ELSE IF ~(o.ok /\ o.found) THEN "value:original-has-none"
-        ELSE IF a.v.b # o.v.b THEN "value:bits"
-        ELSE IF Len(a.v.r) # Len(o.v.r) THEN "value:refs"
+     IN IF ~a.ok THEN PV(StrCat("value:", a.why), psp, PathOf(a))
+        ELSE IF ~a.found THEN PV("value:not-found", psp, <<>>)
+        ELSE IF ~(o.ok /\ o.found) THEN PV("value:original-has-none", psp, <<>>)
+        ELSE IF a.v.b # o.v.b THEN PV("value:bits", psp, <<>>)
+        ELSE IF Len(a.v.r) # Len(o.v.r) THEN PV("value:refs", psp, <<>>)
         \* the value's own sub-trees must be revealed completely (no pruned branch inside: highest-level hash = original hash)
-        ELSE IF \E j \in 1..Len(a.v.r) : ReprHash(IP[a.v.r[j]]) # ReprHash(IT[o.v.r[j]]) THEN "value:refs"
-        ELSE ""
+        ELSE IF \E j \in 1..Len(a.v.r) : ReprHash(IP[a.v.r[j]]) # ReprHash(IT[o.v.r[j]]) THEN PV("value:refs", psp, <<>>)
+        ELSE PV("", psp, <<>>)
+ProofReason(B, T, IT, R, n, k) == ProofVerdict(B, T, IT, R, n, k).reason
 
 \* The judgement of a proof bag B for (dictionary root R of table T, key width n, key k)
 ProofOK(B, T, R, n, k) == ProofReason(B, T, InfoTable(T), R, n, k) = ""
 
 \* Cursor walks: the bag must commit to (T, R) and be the proof of a prune set PS' with PS <= PS' <= Closure(PS).
-\* [reason |-> "" or the failing clause, sem |-> which reading of Prune the prover exhibited (statistics), hash |-> proof root hash]
+\* [reason, sem |-> which reading of Prune the prover exhibited (statistics), hash |-> proof root hash, psp |-> PS',
+\*  extra |-> the paths of PS' that no Prune of THIS cursor accounts for]
 WalkVerdict(B, T, IT, R, PS) ==
-  LET base == ProofReason(B, T, IT, R, 0, <<>>) IN
-  IF base # "" THEN [reason |-> base, sem |-> "none", hash |-> <<>>]
+  LET base == ProofVerdict(B, T, IT, R, 0, <<>>) IN
+  IF base.reason # "" THEN [reason |-> base.reason, sem |-> "none", hash |-> <<>>, psp |-> base.psp, extra |-> {}]
   ELSE LET pr  == Parse(B)
-           PSp == PrunedPaths(pr.T, pr.T[pr.roots[1]].r[1], T, R, <<>>)
+           PSp == base.psp
+           extra == {q \in PSp : ~\E p \in PS : ReprHash(IT[NodeAt(T, R, q)]) = ReprHash(IT[NodeAt(T, R, p)])}
        IN [reason |-> IF \E p \in PS : ~\E q \in PSp : PathPrefix(q, p) THEN "asked-but-not-pruned"
-                      ELSE IF \E q \in PSp : ~\E p \in PS : ReprHash(IT[NodeAt(T, R, q)]) = ReprHash(IT[NodeAt(T, R, p)]) THEN "pruned-but-not-asked"
+                      ELSE IF extra # {} THEN "pruned-but-not-asked"
                       ELSE "",
            sem |-> IF PSp = Minimal(PS) THEN "occurrence" ELSE "cell-value",
-           hash |-> ReprHash(InfoTable(pr.T)[pr.roots[1]])]
+           hash |-> ReprHash(InfoTable(pr.T)[pr.roots[1]]), psp |-> PSp, extra |-> extra]
 WalkReason(B, T, IT, R, PS) == WalkVerdict(B, T, IT, R, PS).reason
+
+\* ------------------------------------------------ (a') the prover: a sequence of requests
+\* A MerkleProver is the immutable pair (T, R).  Every Cursor() opens a SESSION with an EMPTY prune set; cursors obtained
+\* from it by Ref share that session's prune set and nothing else.  A prover may serve any number of sessions, one after
+\* the other or interleaved; CreateProof(cursor of session c) is Proof(T, R, ps of session c): prunes made through another
+\* cursor session of the same prover - earlier or concurrent - have no effect.  ProveKeyInHashmap opens its own session.
+\* sess: session id -> [path, ps]
+NewSession(sess, c)  == (c :> [path |-> <<>>, ps |-> {}]) @@ sess
+SessState(T, R, sess, c) == [T |-> T, root |-> R, path |-> sess[c].path, ps |-> sess[c].ps]
+SessApply(T, R, sess, c, o) == LET s2 == Apply(SessState(T, R, sess, c), o) IN [sess EXCEPT ![c] = [path |-> s2.path, ps |-> s2.ps]]
+SessEnabled(T, R, sess, c, o) == c \in DOMAIN sess /\ OpEnabled(SessState(T, R, sess, c), o)
+SessProof(T, R, sess, c) == Proof(T, R, sess[c].ps)
 
 \* Input classes of a (dictionary, key) pair, used to name findings:
 \*   "twin"     a fork on the path of k has two children that are the same cell (value)
